@@ -52,7 +52,7 @@ class GeneticEngineRegressor(
 
     def prepare_inputs(self, X) -> tuple[list[str], Any]:
         if isinstance(X, pd.DataFrame):
-            return list(X.columns.values), X.values
+            return [str(c) for c in X.columns.values], X.values  # unnamed columns are numpy integers; names are strings
         else:
             return [f"x{i}" for i in range(X.shape[1])], X
 
